@@ -26,7 +26,7 @@ struct Plan {
     int count = 1, mtt = 0;
     SchedCfg sched;
     uint64_t lat_lo = 20000, lat_hi = 200000, cost_lo = 200, cost_hi = 3000, tend = 100000000ULL, quiet_t = 0, drain = 60000000ULL;
-    size_t qcap = 64;
+    size_t qcap = 64, cantxq = 0;
     int64_t skew[4] = {0, 0, 0, 0};
     bool stdin_eof = false, o0 = false, ethpad = false;
     double read0 = 0;
